@@ -183,6 +183,24 @@ func cmdVerify(mode string, argv []string) {
 			h := P.harness[n]
 			fmt.Printf("%-50s %-9s %-40s %v\n", n, h.Kind, h.TargetS, h.Props)
 		}
+		if os.Getenv("GOVC_FIELDS") != "" {
+			P.mutOnce.Do(P.computeMutableFields)
+			for _, p := range P.pkgs {
+				if len(p.Syntax) == 0 || !strings.Contains(p.PkgPath, os.Getenv("GOVC_FIELDS")) {
+					continue
+				}
+				sc := p.Types.Scope()
+				for _, n := range sc.Names() {
+					if tn, ok := sc.Lookup(n).(*types.TypeName); ok {
+						if st, ok := tn.Type().Underlying().(*types.Struct); ok {
+							for i := 0; i < st.NumFields(); i++ {
+								fmt.Printf("field %s.%s construction-only=%v\n", n, st.Field(i).Name(), P.constructionOnly(st.Field(i)))
+							}
+						}
+					}
+				}
+			}
+		}
 		return
 	case "loops":
 		fn, err := P.FindFunc(nil, *fnName)
